@@ -274,12 +274,12 @@ Lemma canon_unique B : 1 <= B -> forall f1 f2 l1 l2,
 Proof.
   intros HB. induction f1 as [|a f1 IH]; intros f2 l1 l2 H1 H2 Hl1 Hl2 H.
   - destruct f2 as [|b f2]; [split; [reflexivity|exact H]|]. exfalso.
-    pose proof (Forall_inv H2) as Hb. cbn [concat app] in H. apply (f_equal (@zlen Z)) in H.
-    rewrite <- app_assoc, zlen_app in H. pose proof (zlen_nonneg (concat f2 ++ l2)). lia.
+    pose proof (Forall_inv H2) as Hb. cbn beta in Hb. cbn [concat app] in H. apply (f_equal (@zlen Z)) in H.
+    rewrite !zlen_app in H. pose proof (zlen_nonneg (concat f2)). lia.
   - destruct f2 as [|b f2].
-    + exfalso. pose proof (Forall_inv H1) as Ha. cbn [concat app] in H. apply (f_equal (@zlen Z)) in H.
-      rewrite <- app_assoc, zlen_app in H. pose proof (zlen_nonneg (concat f1 ++ l1)). lia.
-    + pose proof (Forall_inv H1) as Ha. pose proof (Forall_inv H2) as Hb.
+    + exfalso. pose proof (Forall_inv H1) as Ha. cbn beta in Ha. cbn [concat app] in H. apply (f_equal (@zlen Z)) in H.
+      rewrite !zlen_app in H. pose proof (zlen_nonneg (concat f1)). lia.
+    + pose proof (Forall_inv H1) as Ha. pose proof (Forall_inv H2) as Hb. cbn beta in Ha, Hb.
       cbn [concat] in H. rewrite <- !app_assoc in H.
       destruct (app_same_len a b _ _ ltac:(lia) H) as [Eab Er]. subst b.
       destruct (IH f2 l1 l2 (Forall_inv_tail H1) (Forall_inv_tail H2) Hl1 Hl2 Er) as [Ef El].
@@ -360,4 +360,13 @@ Proof.
   destruct (message_ok ps chan typ (map fst pkgs) st Hps Hc Hnr Hq Hpay) as [o [s [E [Hok [Hq' Hn']]]]].
   rewrite E in E2. inversion E2; subst o s.
   exists outs, st'. split; [exact E1|]. split; [exact Hok|]. split; assumption.
+Qed.
+
+(* the invariant really is one: every state the interrupted QueuePackage calls can reach from the empty queue *)
+Theorem interrupted_states ps chan typ c st b o st' e : 9 <= ps -> msg_qi ps (tq st) ->
+  queue_package_b ps chan typ c st b = Some (o, st', e) -> msg_qi ps (tq st').
+Proof.
+  intros Hps Hq H.
+  destruct (queue_package_b_spec ps chan typ c st b Hps Hq) as [f1 [st1 [e1 [E1 [Hq1 _]]]]].
+  rewrite E1 in H. inversion H; subst. exact Hq1.
 Qed.
